@@ -168,6 +168,7 @@ type fnCtx struct {
 	inlineDepth int
 	inlineStack []*ssa.Function
 	aliasOf map[string]Val
+	anchorsSeen map[*clause]int
 	alias    map[string]string // contract name of a local -> name of the (renamed) variable in the code
 	noDef    bool // terms under a quantifier: no top-level abbreviations
 	aliasOff map[string]string // offset of a reslice x[lo:..] in its source
